@@ -476,6 +476,7 @@ fn run_aseq(ver: &str, seed: u64, nscen: usize, dir: PathBuf) {
 		drop(store);
 		let _ = std::fs::remove_dir_all(&d);
 	}
+	let _ = std::fs::remove_dir(&dir);
 	println!("R end");
 }
 
